@@ -85,6 +85,38 @@ static Scenario pool_scenario(){ Scenario s; s.name="S5 thread_pool: post / canc
 	s.check=[](Book &b,std::vector<std::string> &err){ const char *must[]={"j1","j2","j3","j5"}; for(int i=0;i<4;i++) if(b.calls[must[i]]!=1) err.push_back(std::string("pool job ")+must[i]+" ran "+std::to_string(b.calls[must[i]])+" times"); int j4=b.calls["j4"],c4=b.calls["j4-cancelled"]; if(j4+c4!=1) err.push_back("job j4: cancel() returned "+std::string(c4?"true":"false")+" and the job ran "+std::to_string(j4)+" times"); if(b.calls["stopped"]!=1) err.push_back("stop() did not return"); }; return s; }
 
 #ifndef C17_TSAN_PASS
+// S6 (sequential, no scheduler): MANY simultaneously pending timers on one io_service. The id table of set_timer_event
+// grows while timers are pending; every id handed out must identify exactly one pending timer, so that cancelling by id
+// reaches exactly the timer it was returned for. For every (N pending, rand-stream shift, cancel order) of a menu: arm,
+// check the ids are pairwise distinct, cancel in the given order (optionally in two rounds with re-arming in between,
+// optionally letting one half expire), run the loop, and require every handler to have run exactly once with the right code.
+struct TRec { int id; int ok,canceled,other; TRec():id(-1),ok(0),canceled(0),other(0){} };
+static void timers_case(int reactor,const char *rname,int N,int shift,int order){ std::string cs="S6 many timers reactor="+std::string(rname)+" N="+std::to_string(N)+" shift="+std::to_string(shift)+" order="+std::to_string(order); vf::announce(cs); vf::eval();
+	io::io_service srv(reactor); std::vector<TRec> rec(N+shift+N); std::vector<TRec> *R=&rec; std::string fail;
+	auto h=[R](int i){ return [R,i](error_code const &e){ if(!e) (*R)[i].ok++; else if(e==error_code(io::aio_error::canceled,io::aio_error_cat)) (*R)[i].canceled++; else (*R)[i].other++; }; };
+	auto loop=[&](){ srv.post([&srv](){ srv.stop(); }); srv.run(); srv.reset(); };
+	booster::ptime far=booster::ptime::now()+booster::ptime::hours(1), past=booster::ptime::now()-booster::ptime::milliseconds(5);
+	std::map<int,int> pending; // id -> record
+	auto arm=[&](int i,bool expired){ int id=srv.set_timer_event(expired?past:far,h(i)); rec[i].id=id; if(pending.count(id)&&fail.empty()) fail="timers #"+std::to_string(pending[id])+" and #"+std::to_string(i)+" are both pending and were both given id "+std::to_string(id); pending[id]=i; };
+	auto cancel=[&](int i){ srv.cancel_timer_event(rec[i].id); if(pending.count(rec[i].id)&&pending[rec[i].id]==i) pending.erase(rec[i].id); };
+	for(int j=0;j<shift;j++){ arm(N+j,false); cancel(N+j); } // moves the slot generator along; these must be cancelled exactly once too
+	std::vector<int> want_ok(rec.size(),0),want_c(rec.size(),0); for(int j=0;j<shift;j++) want_c[N+j]=1;
+	if(order<=2){ for(int i=0;i<N;i++) arm(i,false);
+		if(order==0) for(int i=0;i<N;i++) cancel(i); else if(order==1) for(int i=N-1;i>=0;i--) cancel(i); else { for(int i=0;i<N;i+=2) cancel(i); for(int i=1;i<N;i+=2) cancel(i); }
+		for(int i=0;i<N;i++) want_c[i]=1; loop(); }
+	else if(order==3){ // two rounds: cancel the even ones, dispatch, arm as many again while the odd ones are pending, cancel everything
+		for(int i=0;i<N;i++) arm(i,false); for(int i=0;i<N;i+=2){ cancel(i); want_c[i]=1; } loop();
+		for(int i=0;i<N&&fail.empty();i++) if(rec[i].canceled!=want_c[i]||rec[i].ok) fail="after cancelling the even timers: timer #"+std::to_string(i)+" (id "+std::to_string(rec[i].id)+") ran canceled="+std::to_string(rec[i].canceled)+" ok="+std::to_string(rec[i].ok)+", expected canceled="+std::to_string(want_c[i]);
+		int base=N+shift; for(int i=0;i<N;i++) arm(base+i,false); for(int i=1;i<N;i+=2){ cancel(i); want_c[i]=1; } for(int i=0;i<N;i++){ cancel(base+i); want_c[base+i]=1; } loop(); }
+	else { // order 4: the odd ones are already due when armed and expire, the even ones are cancelled first
+		for(int i=0;i<N;i++) arm(i,(i&1)!=0); for(int i=0;i<N;i+=2){ cancel(i); want_c[i]=1; } for(int i=1;i<N;i+=2){ want_ok[i]=1; pending.erase(rec[i].id); } /* the loop is stopped by a handler posted from a timer that is due after all the others, so every due timer has been dispatched before */ srv.set_timer_event(booster::ptime::now(),[&srv](error_code const &){ srv.post([&srv](){ srv.stop(); }); }); srv.run(); srv.reset(); loop(); }
+	for(size_t i=0;i<rec.size()&&fail.empty();i++){ if(rec[i].id<0&&!want_ok[i]&&!want_c[i]) continue; if(rec[i].ok!=want_ok[i]||rec[i].canceled!=want_c[i]||rec[i].other) fail="timer #"+std::to_string(i)+" (id "+std::to_string(rec[i].id)+"): handler ran ok="+std::to_string(rec[i].ok)+" canceled="+std::to_string(rec[i].canceled)+" other="+std::to_string(rec[i].other)+" time(s), expected ok="+std::to_string(want_ok[i])+" canceled="+std::to_string(want_c[i]); }
+	if(!fail.empty()) vf::violation(std::string("many-timers:")+(fail.find("both given id")!=std::string::npos?"duplicate-id":"not-exactly-once"),fail+" ["+cs+"]","\"case\":"+vf::jstr(cs));
+	vf::guard("many_timer_cases"); if(N>1000) vf::guard("many_timer_cases_with_table_growth"); vf::C().traces++; vf::C().transitions+=rec.size()*2; vf::outcome("S6|"+std::to_string(N)+"|"+std::to_string(order)+(fail.empty()?"|ok":"|fail"));
+	{ static uint64_t sc=0; if(vf::sample_tick(sc,37)) vf::sample("{\"case\":"+vf::jstr(cs)+",\"timers\":"+std::to_string(rec.size())+",\"result\":"+vf::jstr(fail.empty()?"every handler exactly once with the expected code":fail)+"}",60); }
+}
+static void timers_pass(int part,int parts){ int reactors[]={io::reactor::use_epoll,io::reactor::use_poll,io::reactor::use_select}; const char *rn[]={"epoll","poll","select"}; std::vector<int> Ns; int q[]={1,2,10,500,999,1000,1001,1500,2500}; Ns.assign(q,q+9); if(vf::thorough()){ Ns.push_back(5000); Ns.push_back(12000); Ns.push_back(20000); }
+	int k=0; for(size_t n=0;n<Ns.size();n++) for(int shift=0;shift<(vf::thorough()?16:6);shift++) for(int order=0;order<5;order++) for(int r=0;r<3;r++){ if(r&&(Ns[n]>2500||shift>1)) continue; /* the timer table is reactor independent: the other reactors get the smaller cases */ if(k++%parts!=part) continue; if(vf::deadline_reached()){ vf::C().exhaustive=false; return; } timers_case(reactors[r],rn[r],Ns[n],shift,order); } }
 static uint64_t n_exec=0;
 static void run_scenario(const Scenario &s,int reactor,const char *rname,int bound,bool adopt){ std::string cs=s.name+" reactor="+rname; vf::announce(cs); std::shared_ptr<Book> cur; std::set<std::string> outcomes; sched::G.virtual_clock=true; sched::G.adopt_threads=adopt;
 	auto factory=[&]()->Bodies{ return s.build(cur,reactor); };
@@ -102,14 +134,14 @@ int main(int argc,char **argv){ vf::init(argc,argv,"C17","model_checking");
 	tsan_pass(); return vf::finish();
 #else
 	bool th=vf::thorough(); int bound=th?3:2; std::vector<Scenario> S=scenarios(); int reactors[]={io::reactor::use_epoll,io::reactor::use_poll,io::reactor::use_select}; const char *rn[]={"epoll","poll","select"};
-	vf::C().rule="scenarios S1 (two producers posting plain/event/io/nested handlers), S2 (timers armed with equal, past and future deadlines and cancelled from another thread, cancel racing expiry, double cancel), S3 (two descriptors becoming readable/writable, writer thread, canceller), S4 (stop racing post) x reactors {epoll, poll, select}, and S5 (thread_pool(2): five jobs, one throwing, one cancelled, stop) - every schedule with <= "+std::to_string(bound)+" preemptions ("+std::to_string(bound-1)+" for S2 and S3); scheduling points: every pthread mutex / condition operation, poll/epoll_wait/select, explicit yields around descriptor writes; virtual clock. states = distinct handler-outcome vectors, transitions = scheduling decisions, traces = executions of the real code";
+	vf::C().rule="S6 (sequential): N in {1,2,10,500,999,1000,1001,1500,2500; thorough +5000,12000,20000} simultaneously pending timers x 6 (16) shifts of the slot generator x 5 cancel/expire orders: ids pairwise distinct among pending timers, every handler exactly once with the right code. Scenarios S1 (two producers posting plain/event/io/nested handlers), S2 (timers armed with equal, past and future deadlines and cancelled from another thread, cancel racing expiry, double cancel), S3 (two descriptors becoming readable/writable, writer thread, canceller), S4 (stop racing post) x reactors {epoll, poll, select}, and S5 (thread_pool(2): five jobs, one throwing, one cancelled, stop) - every schedule with <= "+std::to_string(bound)+" preemptions ("+std::to_string(bound-1)+" for S2 and S3); scheduling points: every pthread mutex / condition operation, poll/epoll_wait/select, explicit yields around descriptor writes; virtual clock. states = distinct handler-outcome vectors, transitions = scheduling decisions, traces = executions of the real code";
 	vf::assume("a loop that sleeps until its one-hour poll timeout while handlers are pending is reported as a lost wake-up (the virtual clock would have to jump past every deadline the scenario armed)"); vf::assume("timers are armed on the millisecond grid; the virtual clock only takes values on that grid"); vf::assume("the data-race clause is decided by ThreadSanitizer on free-running executions of the same scenarios");
 	if(!vf::C().replay_file.empty()) printf("replay: the replay file names scenario, reactor and schedule (choice vector); re-running the quick tier reproduces it\n");
-	std::vector<std::pair<int,int> > jobs; for(size_t si=0;si<S.size();si++) for(int r=0;r<3;r++) jobs.push_back(std::make_pair(si,r)); jobs.push_back(std::make_pair(-1,0));
-	vf::parallel(jobs.size(),16,[&](int j){ if(jobs[j].first<0){ Scenario p=pool_scenario(); run_scenario(p,0,"n/a",bound,true); } else { int sb= (jobs[j].first==1||jobs[j].first==2)? bound-1 : bound; /* S2 and S3 have many more scheduling points (time advances, five threads) */ run_scenario(S[jobs[j].first],reactors[jobs[j].second],rn[jobs[j].second],sb,false); } vf::guard("executions",n_exec); },th?1700:280);
+	std::vector<std::pair<int,int> > jobs; for(size_t si=0;si<S.size();si++) for(int r=0;r<3;r++) jobs.push_back(std::make_pair(si,r)); jobs.push_back(std::make_pair(-1,0)); for(int k=0;k<3;k++) jobs.push_back(std::make_pair(-2,k));
+	vf::parallel(jobs.size(),16,[&](int j){ if(jobs[j].first==-2){ timers_pass(jobs[j].second,3); } else if(jobs[j].first<0){ Scenario p=pool_scenario(); run_scenario(p,0,"n/a",bound,true); } else { int sb= (jobs[j].first==1||jobs[j].first==2)? bound-1 : bound; /* S2 and S3 have many more scheduling points (time advances, five threads) */ run_scenario(S[jobs[j].first],reactors[jobs[j].second],rn[jobs[j].second],sb,false); } vf::guard("executions",n_exec); },th?1700:280);
 	{ std::string cmd=vf::verif_dir()+"/build/bin/C17.tsan --tier "+vf::C().tier+" --pass tsan --result '"+vf::scratch_dir()+"/tsan.res' 2>'"+vf::scratch_dir()+"/tsan.err'"; int st=system(cmd.c_str()); FILE *f=fopen((vf::scratch_dir()+"/tsan.res").c_str(),"rb"); bool merged=f&&vf::merge_ctx(f); if(f) fclose(f); std::string err; { std::ifstream e(vf::scratch_dir()+"/tsan.err"); std::stringstream ss; ss<<e.rdbuf(); err=ss.str(); }
 	  if(err.find("ThreadSanitizer: data race")!=std::string::npos||(WIFEXITED(st)&&WEXITSTATUS(st)==66)){ size_t p=err.find("WARNING: ThreadSanitizer"); std::string rep= p==std::string::npos?err.substr(0,1500):err.substr(p,1500); std::string fn; size_t q=rep.find("#0 "); if(q!=std::string::npos){ size_t e2=rep.find('\n',q); fn=rep.substr(q,e2-q); } vf::violation("data-race","ThreadSanitizer reports a data race in the free-running pass: "+fn,"\"report\":"+vf::jstr(rep)); } else if(!merged||st!=0){ fprintf(stderr,"harness error: tsan pass failed (status %d): %s\n",st,err.substr(0,800).c_str()); vf::C().harness_error=true; } }
-	vf::require_guard("executions"); vf::require_guard("executions_with_virtual_time_advance"); vf::require_guard("scenarios_with_several_outcomes"); vf::require_guard("tsan_free_runs");
+	vf::require_guard("executions"); vf::require_guard("executions_with_virtual_time_advance"); vf::require_guard("scenarios_with_several_outcomes"); vf::require_guard("tsan_free_runs"); vf::require_guard("many_timer_cases_with_table_growth");
 	return vf::finish();
 #endif
 }
